@@ -263,7 +263,11 @@ func (m *Machine) stringOfSlice(c *Config, sl *SliceV) Value {
 		return r
 	case SBV32:
 		// string([]rune): the UTF-8 encoding of whole code points
-		r := app(SStr, "s.ofrunes", m.packWindow(st, sl, SRunes), BVLitI(0, 64), sl.Len)
+		full, ok := m.objFull[sl.Obj]
+		if !ok {
+			full = m.packTerm(st, &SliceV{Obj: sl.Obj, Off: BVLitI(0, 64), Len: BVAdd(sl.Off, sl.Len), Cap: sl.Cap, Nil: TFalse}, SRunes)
+		}
+		r := app(SStr, "s.ofrunes", full, sl.Off, BVAdd(sl.Off, sl.Len))
 		m.runeStr[r.S] = runeWindow{sl: sl}
 		return r
 	}
@@ -290,9 +294,13 @@ func (m *Machine) sliceOfString(c *Config, s Term, ts *types.Slice) Value {
 		sl := &SliceV{Obj: obj, Off: BVLitI(0, 64), Len: ln, Cap: ln, Nil: TFalse}
 		m.provenance[obj] = s
 		if rw, ok := m.runeStr[s.S]; ok {
-			// []byte(string(runes[a:b])): a TRunes token
+			// []byte(string(runes[a:b])): a TRunes token over the full rune sequence
 			base := rw.sl
-			m.sliceTok[obj] = app(STok, "TRunes", m.packTerm(st, &SliceV{Obj: base.Obj, Off: BVLitI(0, 64), Len: BVAdd(base.Off, base.Len), Cap: base.Cap, Nil: TFalse}, SRunes), base.Off, BVAdd(base.Off, base.Len))
+			full, ok := m.objFull[base.Obj]
+			if !ok {
+				full = m.packTerm(st, &SliceV{Obj: base.Obj, Off: BVLitI(0, 64), Len: BVAdd(base.Off, base.Len), Cap: base.Cap, Nil: TFalse}, SRunes)
+			}
+			m.sliceTok[obj] = app(STok, "TRunes", full, base.Off, BVAdd(base.Off, base.Len))
 		} else {
 			m.sliceTok[obj] = app(STok, "TStrBytes", s)
 		}
@@ -301,7 +309,10 @@ func (m *Machine) sliceOfString(c *Config, s Term, ts *types.Slice) Value {
 		rs := app(SRunes, "s.runes", s)
 		st.mem[cellKey{obj, ""}] = app(SArr32, "rarr", rs)
 		ln := app(SBV64, "rlen", rs)
+		m.objFull[obj] = rs
 		st.assume(BVUle(ln, app(SBV64, "s.len", s)))
+		st.assume(Implies(Not(Eq(app(SBV64, "s.len", s), BVLitI(0, 64))), Not(Eq(ln, BVLitI(0, 64)))))
+		st.assume(BVUle(app(SBV64, "s.len", s), BVLitI(1<<40, 64)))
 		return &SliceV{Obj: obj, Off: BVLitI(0, 64), Len: ln, Cap: ln, Nil: TFalse}
 	}
 	m.unsup("[]%s(string)", es)
@@ -361,7 +372,7 @@ func (m *Machine) mapState(st *State, ref Term, t types.Type) *mapContent {
 	mc := &mapContent{
 		has:   m.syms.fresh("map.has", ArraySort(ks, SBool)),
 		get:   m.syms.fresh("map.get", ArraySort(ks, vs)),
-		size:  m.syms.fresh("map.size", SBV64),
+		size:  app(SBV64, "map.size0", ref),
 		ksort: ks, vsort: vs,
 	}
 	st.assume(BVSge(mc.size, BVLitI(0, 64)))
@@ -397,6 +408,9 @@ func (m *Machine) makeMap(c *Config, x *ssa.MakeMap) Value {
 		ksort: ks, vsort: vs,
 	}
 	c.st.ghost["@map:"+ref.S] = mc
+	if m.cur != nil {
+		m.cur.freshTerms[ref.S] = true
+	}
 	return ref
 }
 
@@ -476,16 +490,108 @@ func (m *Machine) mapLen(c *Config, ref Term) Term {
 }
 
 // ---------- channels (pool.go only) ----------
+// A buffered channel is modelled sequentially: length, capacity, counters of
+// completed receives / sends and the last value received / sent.  A
+// non-blocking select takes the communication case iff it can proceed at once.
+
+type chanState struct {
+	len, cap, recvs, sends Term
+	lastRecv, lastSent     Value
+}
+
+func (m *Machine) chanState(st *State, ch Term) *chanState {
+	k := "@ch:" + ch.S
+	if v, ok := st.ghost[k]; ok {
+		return v.(*chanState)
+	}
+	cs := &chanState{
+		len:   m.syms.named("chlen0."+sanitize(ch.S), SBV64),
+		recvs: BVLitI(0, 64), sends: BVLitI(0, 64),
+	}
+	if cp, ok := m.chanCaps[ch.S]; ok {
+		cs.cap = cp
+	} else {
+		cs.cap = m.syms.named("chcap."+sanitize(ch.S), SBV64)
+	}
+	st.assume(And(BVSge(cs.len, BVLitI(0, 64)), BVSle(cs.len, cs.cap)))
+	st.ghost[k] = cs
+	if m.cur != nil && m.cur.old != nil && m.cur.old != st {
+		if _, ok := m.cur.old.ghost[k]; !ok {
+			cp := *cs
+			m.cur.old.ghost[k] = &cp
+		}
+	}
+	return cs
+}
 
 func (m *Machine) makeChan(c *Config, x *ssa.MakeChan) Value {
 	ch := m.syms.fresh("chan", SObj)
-	m.chanCaps[ch.S] = m.termOf(c, x.Size)
+	sz := BVConv(m.termOf(c, x.Size), isSigned(x.Size.Type()), 64)
+	m.safety(c, "safe-make", BVSge(sz, BVLitI(0, 64)), x.Pos())
+	m.chanCaps[ch.S] = sz
+	c.st.assume(Not(Eq(ch, Sym("opaque.nil", SObj))))
+	c.st.ghost["@ch:"+ch.S] = &chanState{len: BVLitI(0, 64), cap: sz, recvs: BVLitI(0, 64), sends: BVLitI(0, 64)}
+	if m.cur != nil {
+		m.cur.freshTerms[ch.S] = true
+	}
 	return ch
 }
 
 func (m *Machine) selectOp(c *Config, x *ssa.Select) (Value, []*Config) {
-	m.unsup("select (handled by the structural checker)")
-	return nil, nil
+	m.emit(c, "nonblocking", c.top.fn.Name(), []string{"C17"}, mkBool(!x.Blocking), m.site(x), "every select has a default case")
+	if len(x.States) != 1 {
+		m.unsup("select with %d communication cases", len(x.States))
+	}
+	sst := x.States[0]
+	ch := m.termOf(c, sst.Chan)
+	cs := m.chanState(c.st, ch)
+	one := BVLitI(1, 64)
+	mk := func(idx int64, ok Term, recv Value) Value {
+		t := Tuple{BVLitI(idx, 64), ok}
+		if sst.Dir == types.RecvOnly {
+			t = append(t, recv)
+		}
+		return t
+	}
+	et := sst.Chan.Type().Underlying().(*types.Chan).Elem()
+	// the case that cannot proceed (default branch); for a blocking select the path simply ends
+	c2 := c.clone()
+	var canGo Term
+	if sst.Dir == types.RecvOnly {
+		canGo = BVSgt(cs.len, BVLitI(0, 64))
+	} else {
+		canGo = BVSlt(cs.len, cs.cap)
+	}
+	// proceed
+	c.st.assume(canGo)
+	ncs := *cs
+	var res Value
+	if sst.Dir == types.RecvOnly {
+		v := m.freshValue("recv", et)
+		ncs.len = BVSub(cs.len, one)
+		ncs.recvs = BVAdd(cs.recvs, one)
+		ncs.lastRecv = v
+		res = mk(0, TTrue, v)
+	} else {
+		ncs.len = BVAdd(cs.len, one)
+		ncs.sends = BVAdd(cs.sends, one)
+		ncs.lastSent = m.operand(c, sst.Send)
+		res = mk(0, TFalse, nil)
+	}
+	c.st.ghost["@ch:"+ch.S] = &ncs
+	// default
+	c2.st.assume(Not(canGo))
+	var forks []*Config
+	if !x.Blocking && !c2.st.dead {
+		c2.top.regs[x] = mk(-1, TFalse, m.zeroValueSafe(et))
+		forks = append(forks, c2)
+	}
+	return res, forks
+}
+
+func (m *Machine) zeroValueSafe(t types.Type) Value {
+	defer func() { recover() }()
+	return m.zeroValue(t)
 }
 
 func (m *Machine) rangeOp(c *Config, x *ssa.Range) Value {
